@@ -26,7 +26,7 @@ pub fn sep(o: W, k: usize) -> R {
 
 /// bytes of a `data: [..]` field as printed by a derived Debug impl (StringTable has no accessor)
 pub fn dbg_bytes<T: core::fmt::Debug>(v: &T) -> Vec<u8> {
-    crate::alloc_count::pause();
+    let was = crate::alloc_count::suspend();
     let s = format!("{:?}", v);
     let i = s.find("data: [").expect("debug data") + 7;
     let j = s[i..].find(']').unwrap() + i;
@@ -35,7 +35,7 @@ pub fn dbg_bytes<T: core::fmt::Debug>(v: &T) -> Vec<u8> {
         .filter(|x| !x.trim().is_empty())
         .map(|x| x.trim().parse::<u8>().unwrap())
         .collect();
-    crate::alloc_count::resume();
+    crate::alloc_count::restore(was);
     r
 }
 
